@@ -116,6 +116,58 @@ def match_known(known, prop, v):
     return None
 
 
+def replay_known(prop, known):
+    """Directed scenarios kept with each known finding: the KNOWN-FINDING line does
+    not depend on the sample happening to hit it."""
+    out = {}
+    for k in known:
+        if k.get("status") != "known" or k["property"] != prop or not k.get("replay"):
+            continue
+        path = os.path.join(VERIF_DIR, k["replay"])
+        try:
+            with open(path) as f:
+                rep = json.load(f)
+            summ, err = execute_scenario(prop, rep["scenario"])
+            ok = bool(summ) and any(match_known([k], prop, v) for v in summ["violations"])
+            out[k["id"]] = (k, ok, err.splitlines()[0] if err else "no matching violation")
+        except Exception as e:  # noqa
+            out[k["id"]] = (k, False, "%s: %s" % (type(e).__name__, e))
+    return out
+
+
+def save_known_replay(prop, kid, verif_seed=0, max_idx=4000):
+    """Search seeds for a run hitting known finding `kid`, minimise, store the replay."""
+    from simkit import boot
+    boot.boot()
+    known = [k for k in load_known() if k["id"] == kid]
+    eng = engine_for(prop)
+    for idx in range(max_idx):
+        seed = derive_seed(verif_seed, prop, idx)
+        scen = eng.generate(prop, random.Random(seed), "quick")
+        scen["seed"] = seed
+        summ, err = execute_scenario(prop, scen)
+        if not summ:
+            continue
+        hit = [v for v in summ["violations"] if match_known(known, prop, v)]
+        if hit:
+            small, steps = shrink(prop, scen, hit[0]["class"], None, budget_s=60)
+            summ2, _ = execute_scenario(prop, small)
+            hit2 = [v for v in (summ2 or {}).get("violations", []) if match_known(known, prop, v)]
+            if not hit2:
+                small, hit2 = scen, hit
+            d = os.path.join(VERIF_DIR, "replays", "known")
+            os.makedirs(d, exist_ok=True)
+            path = os.path.join(d, "%s.json" % kid)
+            with open(path, "w") as f:
+                json.dump({"property": prop, "class": hit2[0]["class"], "sig": hit2[0]["sig"],
+                           "detail": hit2[0]["detail"], "seed": seed, "scenario": small},
+                          f, indent=1, sort_keys=True, default=str)
+            print("saved %s (idx %d, %d shrink steps): %s" % (path, idx, steps, hit2[0]["detail"]))
+            return 0
+    print("no run hit %s" % kid)
+    return 2
+
+
 # ----------------------------------------------------------------- engine access
 def engine_for(prop):
     return importlib.import_module(ENGINES[prop])
@@ -312,6 +364,7 @@ def run_check(prop, tier, verif_seed, n_runs=None, budget=None, workers=None,
             print("%5d  %s %s\n        idx=%d %s" % (n, k[0], k[1], idx, det[:700]))
         return 0
     known = load_known()
+    known_replayed = replay_known(prop, known)
     agg = aggregate(prop, tier, verif_seed, records)
     for r in records:
         if "harness" in r:
@@ -334,9 +387,18 @@ def run_check(prop, tier, verif_seed, n_runs=None, budget=None, workers=None,
             unknown.append((k, lst))
     exit_code = 0
     out_lines = []
+    for kid, (kf, ok, note) in sorted(known_replayed.items()):
+        n = known_seen.get(kid, (None, None, 0))[2]
+        if ok:
+            out_lines.append("KNOWN-FINDING: property=%s %s [%s; directed replay reproduces; "
+                             "also seen in %d sampled runs]" % (prop, kf["what"], kid, n))
+        else:
+            out_lines.append("note: known finding %s did not reproduce on its directed replay (%s); "
+                             "if it was repaired, mark it fixed in known_findings.json" % (kid, note))
     for kid, (kf, v, n) in sorted(known_seen.items()):
-        out_lines.append("KNOWN-FINDING: property=%s %s [%s; seen in %d runs]" % (
-            prop, kf["what"], kid, n))
+        if kid not in known_replayed:
+            out_lines.append("KNOWN-FINDING: property=%s %s [%s; seen in %d runs]" % (
+                prop, kf["what"], kid, n))
     # report at most a handful of distinct unknown classes (by class id)
     reported_classes = {}
     for k, lst in sorted(unknown, key=lambda kl: (kl[0][0], -len(kl[1]))):
@@ -501,6 +563,7 @@ def main(argv=None):
     ap.add_argument("--selftest")
     ap.add_argument("--one", type=int, help="run a single index verbosely")
     ap.add_argument("--survey", action="store_true", help="histogram of violation classes")
+    ap.add_argument("--save-known", help="find, minimise and store a replay for a known finding id")
     a = ap.parse_args(argv)
     verif_seed = int(os.environ.get("VERIF_SEED", "0"))
     if a.selftest:
@@ -511,6 +574,8 @@ def main(argv=None):
         return 2
     if a.replay:
         return run_replay(a.prop, a.replay)
+    if a.save_known:
+        return save_known_replay(a.prop, a.save_known, verif_seed)
     if a.one is not None:
         from simkit import boot
         boot.boot()
